@@ -60,6 +60,8 @@ pub mod pre {
     /// http_body::SizeHint.
     pub struct SizeHint { pub lower: u64, pub upper: Option<u64> }
     impl SizeHint {
+        pub fn lower(&self) -> (r: u64) ensures r == self.lower { self.lower }
+        pub fn upper(&self) -> (r: Option<u64>) ensures r == self.upper { self.upper }
         pub fn with_exact(n: u64) -> (r: SizeHint) ensures r.lower == n, r.upper == Some(n) { SizeHint { lower: n, upper: Some(n) } }
     }
     /// chunker::Reader as seen from body.rs: its own contract is proved in unit `chunker`.
